@@ -136,7 +136,7 @@ class C06(Prop):
         driver.quiet_process()
 
     def normalize(self, spec):
-        return _number(spec)
+        return spec if 'deep' in spec else _number(spec)
 
     def strategy(self, tier):
         e = _ev_strategy(2 if tier == 'quick' else 3)
@@ -353,7 +353,90 @@ class C06(Prop):
         return log, especs, before, after, final, exhausted, escaped, err.getvalue()
 
     # ------------------------------------------------------------------
+    def _deep(self, spec):
+        """{"deep": N, "how": "call"|"firewait", "leaf": "value"|"raise", "driver": "tick"}: N nested calls, each handler
+        suspended on the next ("nested to any depth").  Judged without recursion: every caller resumed exactly once,
+        innermost first, each with its callee's result (or error flag), root value set, no task / temporary handler left."""
+        n, how, leaf = spec['deep'], spec.get('how', 'call'), spec.get('leaf', 'value')
+        log = []
+
+        class link(Event):
+            pass
+
+        class App(BaseComponent):
+            @H('link')
+            def _l(self, event, k):
+                if k == n:
+                    if leaf == 'raise':
+                        raise Boom('leaf')
+                    yield 'v%d' % k
+                    return
+                ce = link(k + 1)
+                if how == 'call':
+                    v = yield self.call(ce)
+                else:
+                    self.fire(ce)
+                    v = yield self.wait(ce)
+                log.append(('r', k, v.value if not v.errors else 'ERR', bool(v.errors)))
+                yield 'v%d' % k
+
+            @H('exception', channel='*')
+            def _x(self, etype, evalue, tb, handler=None, fevent=None):
+                if not isinstance(evalue, Boom):
+                    log.append(('x', repr(evalue)[:120]))
+
+        app = App()
+        driver.settle(app, 10)
+        before = {k: sorted(h.__name__ for h in v) for k, v in app._handlers.items()}
+        escaped = None
+        root = link(0)
+        with driver.captured_stderr() as err:
+            try:
+                app.fire(root)
+                exhausted = driver.settle(app, 10 * n + 100) < 0
+            except BaseException as e:  # noqa
+                escaped = repr(e)[:200]
+        classes = ['deep-nesting', 'deep>=1000' if n >= 1000 else 'deep<1000', 'deep:' + how, 'deep-leaf:' + leaf]
+
+        def bad(clause, msg):
+            return Result(False, clause, '%s [%d nested %s, leaf %s]' % (msg, n, how, leaf), True, classes)
+        if escaped:
+            return bad('exception-escaped', 'exception escaped the loop: %s' % escaped)
+        xs = [l for l in log if l[0] == 'x']
+        if xs:
+            return bad('stray-exception', 'exception event: %s' % xs[0][1])
+        if exhausted:
+            return bad('no-quiescence', 'loop did not become quiescent within the iteration bound')
+        rs = [l for l in log if l[0] == 'r']
+        if [l[1] for l in rs] != list(range(n - 1, -1, -1)):
+            got = [l[1] for l in rs]
+            return bad('never-resumed' if len(got) < n else 'resumed-twice', '%d of %d callers resumed (first ones: %r)' % (len(got), n, got[:5]))
+        for _, k, v, errs in rs:
+            want = ('ERR', True) if (leaf == 'raise' and k == n - 1) else ('v%d' % (k + 1), False)
+            if (('ERR' if errs else v), errs) != want:
+                return bad('wrong-result', 'caller %d resumed with %r errors=%r, expected %r' % (k, v, errs, want))
+        if root.value.value != 'v0':
+            return bad('caller-value', 'root event value %r, expected v0' % (root.value.value,))
+        if app._tasks:
+            return bad('residue-tasks', '%d tasks left at quiescence' % len(app._tasks))
+        after = {k: sorted(h.__name__ for h in v) for k, v in app._handlers.items() if v}
+        if after != {k: v for k, v in before.items() if v}:
+            return bad('residue-handlers', 'handler tables differ at quiescence: %r' % ({k: v for k, v in after.items() if before.get(k) != v},))
+        if err.getvalue().strip():
+            return bad('stderr', 'error output: %s' % err.getvalue()[-200:])
+        return Result(True, nontrivial=True, classes=classes)
+
+    def enumerate(self, tier):
+        out = []
+        for n in ((30, 1500) if tier == 'quick' else (30, 999, 1500, 3000)):
+            for how in ('call', 'firewait'):
+                for leaf in ('value', 'raise'):
+                    out.append({'deep': n, 'how': how, 'leaf': leaf, 'driver': 'tick'})
+        return out
+
     def execute(self, spec):
+        if 'deep' in spec:
+            return self._deep(spec)
         log, especs, before, after, final, exhausted, escaped, errout = self._run_real(spec)
         drv = spec['driver']
 
